@@ -344,7 +344,11 @@ class Timeline:
         #--------------------------------------------------------------------------------
         # Increment beat count according to our current tick_length.
         #--------------------------------------------------------------------------------
-        self.current_time += self.tick_duration
+        #--------------------------------------------------------------------------------
+        # Keep the timeline's time on the tick grid, so that floating-point error does not
+        # accumulate from one tick to the next.
+        #--------------------------------------------------------------------------------
+        self.current_time = round((self.current_time + self.tick_duration) * self.ticks_per_beat) / self.ticks_per_beat
 
     def dump(self):
         """
